@@ -6,16 +6,16 @@ Shares5 == <<5000000, 3000001, 1000002, 1000000, 0>>
 Shares4 == <<5000000, 3000001, 1000002, 1000000>>     \* the same world without the late validator   \* raw shares of the driver's world (see harness/drivers/cqueue)
 H(a, r) == hist' = Append(hist, [act |-> a, args |-> r])
 Ids == DOMAIN msgs \cup {nextId}         \* existing ids plus one that does not exist
-SlcIds == {i \in DOMAIN msgs : msgs[i].kind = "slc"} \cup {nextId}
-GPut == nextId <= MaxMsgs /\ \E k \in {"ref", "slc"} : (Family \in {"ev", "prune"} => k = "ref") /\ (Family = "sig" => k = "slc")
+SlcIds == {i \in DOMAIN msgs : msgs[i].kind \in Signable} \cup {nextId}
+GPut == nextId <= MaxMsgs /\ \E k \in {"ref", "slc", "uv"} : (Family \in {"ev", "prune"} => k = "ref") /\ (Family = "sig" => k = "slc") /\ ((k = "uv") = (Family = "uvsig"))
                                                         /\ Put(k) /\ H("Put", [kind |-> k])
 \* rejected requests are generated for one canonical validator only (they all leave the state unchanged)
-SignOk(v, id, mode) == id \in DOMAIN msgs /\ v \notin jailed /\ mode = "good" /\ msgs[id].kind = "slc" /\ ~\E s \in msgs[id].sigs : s.val = v
+SignOk(v, id, mode) == id \in DOMAIN msgs /\ v \notin jailed /\ mode = "good" /\ msgs[id].kind \in Signable /\ ~\E s \in msgs[id].sigs : s.val = v
 GSign == \E v \in Vals, id \in SlcIds, mode \in {"good", "stale", "badkey", "otherchain", "garbage"} :
            /\ (mode # "good" => id \in DOMAIN msgs)
            /\ (SignOk(v, id, mode) \/ v = 2)
            /\ Sign(v, id, mode) /\ H("Sign", [v |-> v, id |-> id, mode |-> mode])
-EstOk(v, id) == id \in DOMAIN msgs /\ v \notin jailed /\ msgs[id].kind = "slc" /\ msgs[id].ests[v] = None
+EstOk(v, id) == id \in DOMAIN msgs /\ v \notin jailed /\ msgs[id].kind \in Signable /\ msgs[id].ests[v] = None
 GEstimate == \E v \in Vals, id \in SlcIds, x \in EstValues :
            /\ (EstOk(v, id) \/ (v = 2 /\ x = CHOOSE y \in EstValues : TRUE))
            /\ Estimate(v, id, x) /\ H("Estimate", [v |-> v, id |-> id, x |-> x])
@@ -25,7 +25,7 @@ GEvidence == \E v \in Vals, id \in Ids, e \in EvValues :
 GSetPAD == \E v \in Vals, id \in DOMAIN msgs : ~msgs[id].pad /\ SetPAD(v, id) /\ H("SetPAD", [v |-> v, id |-> id])
 GSetErr == \E v \in Vals, id \in DOMAIN msgs : ~msgs[id].pad /\ ~msgs[id].err /\ SetErr(v, id) /\ H("SetErr", [v |-> v, id |-> id])
 GReReg == \E v \in Vals : keyver[v] <= 2 /\ ReRegister(v) /\ H("ReRegister", [v |-> v])
-GReassign == (\E id \in DOMAIN msgs : msgs[id].kind = "slc") /\ (\A id \in DOMAIN msgs : msgs[id].asg < 2) /\ Reassign /\ H("Reassign", [x |-> 0])
+GReassign == (\E id \in DOMAIN msgs : msgs[id].kind \in Signable) /\ (\A id \in DOMAIN msgs : msgs[id].asg < 2) /\ Reassign /\ H("Reassign", [x |-> 0])
 GEndBlock == EndBlock /\ H("EndBlock", [x |-> 0])
 \* transition cover: different pre-states (who supplied evidence) lead to the same post-state (message pruned, nobody
 \* jailed), which a state cover merges; emit one history per EndBlock TRANSITION instead
@@ -34,13 +34,14 @@ GAdvance == \E dh \in {1, 49, 301, 349} : Advance(dh) /\ H("Advance", [dh |-> dh
 GNext == CASE Family = "ev"  -> GPut \/ GEvidence \/ GSetErr \/ GEndBlock \/ GAdvance
            [] Family = "prune" -> GPut \/ GEvidence \/ GEndBlockT \/ (height = 1 /\ Advance(349) /\ H("Advance", [dh |-> 349]))
            [] Family = "sig" -> GPut \/ GSign \/ GEstimate \/ GReReg \/ GReassign \/ GEndBlock
+           [] Family = "uvsig" -> GPut \/ GSign \/ GEstimate \/ GReassign \/ GEndBlockT     \* valset update: the estimate is in the signing bytes, no fee attachment follows
            [] OTHER -> GPut \/ GSign \/ GEstimate \/ GEvidence \/ GSetPAD \/ GSetErr \/ GReReg \/ GReassign \/ GEndBlock \/ GAdvance
 \* "resnap" family (world without the late validator): a validator re-registers its key, the snapshot is rebuilt (so the
 \* relayer address the assigner hands out changes) and orphaned messages are re-assigned, preferably to the SAME validator
 GSignGood == \E v \in Vals, id \in SlcIds : SignOk(v, id, "good") /\ Sign(v, id, "good") /\ H("Sign", [v |-> v, id |-> id, mode |-> "good"])
 GReRegSnap == \E v \in Vals : keyver[v] <= 1 /\ ReRegister(v) /\ H("ReRegister", [v |-> v, snap |-> TRUE])
 \* transition cover (the post-state of a re-assignment merges who signed and who re-registered)
-GReassignSame == (\E id \in DOMAIN msgs : msgs[id].kind = "slc") /\ (\A id \in DOMAIN msgs : msgs[id].asg < 1) /\ Reassign /\ H("Reassign", [x |-> 0, same |-> TRUE])
+GReassignSame == (\E id \in DOMAIN msgs : msgs[id].kind \in Signable) /\ (\A id \in DOMAIN msgs : msgs[id].asg < 1) /\ Reassign /\ H("Reassign", [x |-> 0, same |-> TRUE])
                  /\ PrintT(<<"HIST", ToJson(hist')>>)
 GNextS == GPut \/ GSignGood \/ GReRegSnap \/ GReassignSame
 \* "order" family: the ORDER in which evidence arrives (and re-arrives) is part of the view, so histories that reach the
